@@ -111,6 +111,50 @@ Theorem remove_releases_exactly : forall cfg c0 evs,
 Proof. exact oofs_remove_exact. Qed.
 Print Assumptions remove_releases_exactly.
 
+(* FREE_STATEID releases nothing: it never touches a lock table (it is
+   gated by lockCount: free_stateid_locks_held_gate in PropertiesC20.v). *)
+Theorem free_stateid_releases_nothing : forall cfg c0 evs s c cfh sfh,
+  st_pool (sr_st (op_free_stateid s c (reachable cfg c0 evs) cfh sfh)) = st_pool (reachable cfg c0 evs).
+Proof. exact free_stateid_pool. Qed.
+Print Assumptions free_stateid_releases_nothing.
+
+(* LOCKU through a lock state ID that resolves to the lock-owner file [lf]
+   of the open-owner file [o]: no check fires, and per byte the lock table
+   of o's file loses exactly the bytes of lf's lock-owner in [s0,e0) -- every
+   other byte of every owner keeps its lock ([LSS.kind_at]: LockSet's
+   per-byte reading of a table).  The other tables are untouched
+   ([locku_other_tables]). *)
+Theorem locku_releases_exactly : forall cfg c0 evs,
+  Forall event_valid evs -> never_shared (init cfg c0) evs ->
+  let st := reachable cfg c0 evs in
+  forall c s off len cfh sfh o lf s0 e0,
+    find_client (c_id c) (st_clients st) = Some c ->
+    get_lofs c cfh s = (Some (o, lf), NFS4_OK) ->
+    req_valid off len ->
+    LS.offset_length_to_start_end off len = Some (s0, e0) ->
+    let r := op_locku s off len c st cfh sfh in
+    st_panic (sr_st r) = st_panic st
+    /\ forall ow b, LSS.kind_at (pool_locks (of_handle o) (st_pool (sr_st r))) ow b
+                    = if (ow =? lf_owner lf) && (s0 <=? b) && (b <? e0) then None
+                      else LSS.kind_at (pool_locks (of_handle o) (st_pool st)) ow b.
+Proof. exact locku_exact. Qed.
+Print Assumptions locku_releases_exactly.
+
+Theorem locku_other_tables : forall cfg c0 evs,
+  let st := reachable cfg c0 evs in
+  forall c s off len cfh sfh o lf s0 e0,
+    find_client (c_id c) (st_clients st) = Some c ->
+    get_lofs c cfh s = (Some (o, lf), NFS4_OK) ->
+    LS.offset_length_to_start_end off len = Some (s0, e0) ->
+    let r := op_locku s off len c st cfh sfh in
+    let q := LS.mkLock s0 e0 (lf_owner lf) LS.Unlocked in
+    forall h', pool_locks h' (st_pool (sr_st r))
+               = if h' =? of_handle o then LS.set_list (LS.set (pool_locks h' (st_pool st)) q)
+                 else pool_locks h' (st_pool st).
+Proof. exact locku_table. Qed.
+Print Assumptions locku_other_tables.
+
+(* ==== the hypothesis is needed, and satisfiable (histories: Proofs2Examples.v) ====================== *)
 (* lockcount_exact and close_releases_exactly without [never_shared] are
    false: the CLOSE releases the ranges locked through the other open-owner
    and its lockCount check fires (the known finding; replayed on the code:
